@@ -396,7 +396,14 @@ def main(tier, seed, scale=1.0):
     for b in mprogs:
         mall.update(mdrop[b])
     mobs, reports = BH.run_miri("c04m", mprogs, mdrop)
+    tool_bins = set()
     for b, (rc, err) in reports.items():
+        if BH.classify_miri(err) == "tool":
+            # an interpreter crash / unsupported operation is a tool failure, not an observation about educe
+            chk.inconc("miri-tool-failure")
+            tool_bins.add(b)
+            log("C04: Miri failed on %s without a UB report: %s" % (b, err[-400:].replace("\n", " | ")))
+            continue
         m = re.search(r"error: (Undefined Behavior[^\n]*|[^\n]*)", err)
         what = (m.group(1) if m else "miri error")[:100]
         # attribute to the case that had begun but not ended in that binary
@@ -410,7 +417,9 @@ def main(tier, seed, scale=1.0):
                       "Miri reports an error inside a generated comparison (bin %s, case %s): %s\n%s\n%s" %
                       (b, culprit, what, render(e) if e else "", err[-2500:]),
                       {"miri.txt": err, "case.rs": module(culprit, e, next(c[2] for c in mcases if c[0] == culprit)) if e else ""})
-    judge_obs(chk, "miri", mcases, mobs, bad_base, mall)
+    # cases of binaries where the tool itself failed are not judged (their runs are incomplete)
+    tool_cases = {cid for b in tool_bins for cid, _, _ in mprogs[b].ranges}
+    judge_obs(chk, "miri", [c for c in mcases if c[0] not in tool_cases], mobs, bad_base, mall)
     chk.extra["miri_processes"] = len(mprogs)
     chk.extra["miri_cases_completed"] = sum(1 for c in mcases if mobs.get(c[0]) is not None and mobs[c[0]].ended)
     if tier == "thorough":
